@@ -302,6 +302,12 @@ func main() {
 		p.Property, p.Seed = *prop, rs
 		st := &RunStats{}
 		v := w.Exec(p, st)
+		if v == nil {
+			recentPlans = append(recentPlans, p)
+			if len(recentPlans) > 3 {
+				recentPlans = recentPlans[1:]
+			}
+		}
 		agg.Runs++
 		agg.Steps += st.Steps
 		agg.Ops += int64(st.Ops)
@@ -393,6 +399,13 @@ func doReplay(path string) int {
 	}
 	want := p.Violation
 	p.Violation = nil
+	if len(p.Warmup) > 0 {
+		debug.SetGCPercent(-1) // pooled objects must not be dropped at an arbitrary moment
+		for _, wp := range p.Warmup {
+			wp.Violation = nil
+			w.Exec(wp, &RunStats{})
+		}
+	}
 	v := w.Exec(&p, &RunStats{})
 	out := map[string]any{"violation": v}
 	if want != nil {
